@@ -62,7 +62,13 @@ Definition poly_partial_derive_stmt : Prop :=
     polyrows n (poly_partial n i f) /\
     derivable_pt_lim (fun t => poly_evalR f (upd x i t)) (nth i x 0) (poly_evalR (poly_partial n i f) x).
 
-(* exact rational evaluation agrees with real evaluation *)
+(* exact rational evaluation agrees with real evaluation, for exponent rows in lowest terms (what the
+   constructor produces: round7 ends in Qred).  A first version without the lowest-terms hypothesis was
+   refuted in Coq (poly_eval reads the raw numerator of an exponent): poly_call_exact_loose_stmt. *)
+Definition reduced_rows_spec (f : qsig) : Prop := Forall (fun t => Forall (fun q => Qred q = q) (fst t)) f.
 Definition poly_call_exact_stmt : Prop :=
+  forall n f x, polyrows n f -> reduced_rows_spec f -> length x = n ->
+    Q2R (poly_call f x) = poly_evalR f (map Q2R x).
+Definition poly_call_exact_loose_stmt : Prop :=
   forall n f x, polyrows n f -> length x = n ->
     Q2R (poly_call f x) = poly_evalR f (map Q2R x).
